@@ -5,6 +5,7 @@ import (
 	"go/types"
 	"os"
 	"sort"
+	"strconv"
 	"strings"
 	"sync"
 
@@ -68,6 +69,9 @@ func (e *Enc) script() string {
 			b.WriteString(ax + "\n")
 		}
 	}
+	for _, k := range sortedKeys(e.extraDecls) {
+		fmt.Fprintf(&b, "(declare-const %s %s)\n", k, e.extraDecls[k])
+	}
 	// function values are pairwise distinct and non-nil
 	var fns []string
 	for _, k := range sortedKeys(e.heapInits) {
@@ -86,6 +90,14 @@ func (e *Enc) script() string {
 		for i := 0; i < len(e.reg.strList); i++ {
 			lit := e.reg.strList[i]
 			fmt.Fprintf(&b, "(assert (= (uf_lower %s) %s))\n", e.reg.strLit(lit).S, e.reg.strLit(strings.ToLower(lit)).S)
+		}
+	}
+	if e.usedUF["atoi"] {
+		// atoi(s) is the value strconv.ParseInt(s, 10, 64) returns when it succeeds
+		for i := 0; i < len(e.reg.strList); i++ {
+			if n, err := strconv.ParseInt(e.reg.strList[i], 10, 64); err == nil {
+				fmt.Fprintf(&b, "(assert (= (uf_atoi %s) %s))\n", e.reg.strLit(e.reg.strList[i]).S, tInt(n).S)
+			}
 		}
 	}
 	if e.usedUF["runes"] {
